@@ -158,6 +158,10 @@ class SpecGen:
             node["default"] = {"t": "factory", "v": self.const()}
         elif x < 0.95 and cfg["opt_default_expr"] and self.nodes:
             node["default"] = {"t": "expr", "n": self.pick_any()}
+        if cfg.get("user_evaluatables") and r.random() < 0.25 and key not in U.WHOLE_KEYS and (node.get("default") or {"t": "const"})["t"] == "const":
+            # a user-defined Evaluatable in the place of this Option (no domain, no type, a literal default or none)
+            node["impl"] = "user"
+            return self.add(node, hashable=not isinstance((node.get("default") or {}).get("v"), (list, dict)))
         if cfg.get("opt_type") and r.random() < 0.25:
             node["type"] = r.choice(["int", "str", "object"])
         if cfg["opt_domain"] and r.random() < 0.25:
@@ -441,6 +445,8 @@ class SpecGen:
             return False
         if k == "val":
             return not isinstance(n["v"], dict) and "{" not in repr(n["v"])
+        if k == "opt" and n.get("impl") == "user":
+            return False  # (hands templated text through unresolved: braces again)
         if k == "opt" and "{" in repr((n.get("default") or {}).get("v")):
             return False  # (brace text in a literal default: the same re-resolution hazard)
         if k == "opt" and (n["key"] in U.WHOLE_KEYS or isinstance((n.get("default") or {}).get("v"), dict)):
@@ -454,7 +460,8 @@ class SpecGen:
             passthrough = [impl["n"] for _, impl in n.get("overloads", []) if "n" in impl]
             if n.get("body") == "selector":
                 passthrough += list(n.get("args", {}).values())
-            return all(self._str_stable(c, seen) for c in passthrough)
+            # (... and the frozen tuple shows its arguments: text with braces among them would be re-read as a template)
+            return all(self._str_stable(c, seen) for c in passthrough) and all(self._str_stable(c, seen) for c in n.get("args", {}).values())
         if k == "derive":
             return self._str_stable(n["base"], seen)
         if k in ("apply", "map"):
